@@ -496,6 +496,8 @@ class Machine:
             key = ('arg', name)
             st.mem[key] = self.make_value(st, to, name + '*', depth + 1)
             return Ref(key, (), ty.get('mut', False))
+        if k in ('slice', 'str'):
+            return Slice(None, name, self.len_sym(st, name))
         if k == 'tuple':
             el = ty.get('elems')
             if el is not None:
@@ -679,10 +681,13 @@ class Machine:
     # -- operands / rvalues ---------------------------------------------------
 
     def operand(self, cfg, fr, op):
-        if 'copy' in op:
-            return self.read_place(cfg, fr, op['copy'])
-        if 'move' in op:
-            return self.read_place(cfg, fr, op['move'])
+        if 'copy' in op or 'move' in op:
+            v = self.read_place(cfg, fr, op.get('copy') or op.get('move'))
+            if isinstance(v, Atom):
+                kn = cfg.st.extra.get('known')
+                if kn and v.name in kn:
+                    return Int.const(kn[v.name])
+            return v
         if 'const' in op:
             return self.const(cfg, fr, op['const'])
         if 'rtcheck' in op:
@@ -698,6 +703,8 @@ class Machine:
         if 'bytes' in c:
             b = bytes.fromhex(c['bytes'])
             return Str(b)
+        if 'promoted' in c and (fr.inst.get('promoted') or []) and c['promoted'] < len(fr.inst['promoted']):
+            return self.eval_promoted(cfg, fr, c['promoted'])
         if 'alloc' in c:
             b = bytes.fromhex(c['alloc'])
             key = ('const', c.get('s', '') + c['alloc'])
@@ -715,6 +722,12 @@ class Machine:
             return Atom('fconst:%s:%x' % (c['ty'], c['bits']), ty_from_str(c['ty']))
         if 'promoted' in c:
             return self.eval_promoted(cfg, fr, c['promoted'])
+        if int_info(c.get('ty', '')):
+            nm = 'const:%s' % c.get('s')
+            if nm not in cfg.st.ranges:
+                cfg.st.ranges[nm] = ty_range(c['ty']) if c['ty'] != 'usize' else ((0, 1 << 40),)
+                cfg.st.symty[nm] = c['ty']
+            return Int.sym(nm)
         return Atom('const:%s' % c.get('s'), ty_from_str(c.get('ty', '?')))
 
     def eval_promoted(self, cfg, fr, idx):
@@ -731,6 +744,13 @@ class Machine:
             if b['t']['k'] != 'return':
                 return Atom('promoted%d' % idx)
         return self.read_path(cfg.st, (pf.fid, 0), [])
+
+    def len_sym(self, st, name):
+        nm = 'len(%s)' % name
+        if nm not in st.ranges:
+            st.ranges[nm] = ((0, 1 << 40),)
+            st.symty[nm] = 'usize'
+        return Int.sym(nm)
 
     def fit(self, st, v, tys):
         """is Int value v provably within type tys on this cell?"""
@@ -928,7 +948,12 @@ class Machine:
                             raise NeedSplit(s_, cuts)
                 st.flags.add('trunc-cast:%s->%s' % (frm.get('s'), ts))
                 return Atom(fresh('trunc'), to)
-            return Atom(fresh('cast'), to) if not isinstance(v, Atom) else Atom('(%s as %s)' % (v.name, to.get('s')), to)
+            if isinstance(v, Atom):
+                fr_, tr_ = ty_range(frm.get('s', '')), ty_range(to.get('s', ''))
+                if fr_ and tr_ and iv_min(tr_) <= iv_min(fr_) and iv_max(fr_) <= iv_max(tr_):
+                    return Atom(v.name, to)   # value-preserving widening
+                return Atom('(%s as %s)' % (v.name, to.get('s')), to)
+            return Atom(fresh('cast'), to)
         if kind.startswith('PointerCoercion(Unsize'):
             if isinstance(v, Ref):
                 tgt = self.read_path(st, v.key, v.path)
@@ -961,6 +986,11 @@ class Machine:
         if rv == 'use':
             return self.operand(cfg, fr, r['a'])
         if rv == 'ref' or rv == 'rawptr':
+            pj = r['p'].get('p') or []
+            if pj and pj[-1]['k'] == 'deref':
+                inner = self.read_place(cfg, fr, {'l': r['p']['l'], 'p': pj[:-1]})
+                if isinstance(inner, (Slice, Str)):
+                    return inner  # reborrow of a fat pointer
             key, path = self.resolve(cfg, fr, r['p'])
             cur = self.read_path(st, key, path)
             if isinstance(cur, Slice) and r['p'].get('p') and r['p']['p'][-1]['k'] == 'deref':
@@ -1003,8 +1033,12 @@ class Machine:
                         return t.len
                     if isinstance(t, Str):
                         return Int.const(len(t.b))
-                nm = a.name if isinstance(a, Atom) else repr(a)
-                return Atom('len(%s)' % nm, {'s': 'usize', 'k': 'int:usize'})
+                if isinstance(a, Ref):
+                    t = self.read_path(st, a.key, a.path)
+                    nm = t.name if isinstance(t, Atom) else repr(t)
+                else:
+                    nm = a.name if isinstance(a, Atom) else repr(a)
+                return self.len_sym(st, nm)
             return Atom(fresh('un:' + op), dest_ty)
         if rv == 'cast':
             a = self.operand(cfg, fr, r['a'])
@@ -1260,12 +1294,21 @@ class Machine:
         st.flags.add('imprecise:branch')
         outs = []
         seen = set()
+        isbool = isinstance(d, Atom) and d.ty and d.ty.get('k') == 'bool'
         for v, tgt in vs + [[None, t['o']]]:
             if tgt in seen:
                 continue
             seen.add(tgt)
             c2 = cfg.clone()
             c2.stack[-1].bb = tgt
+            if isinstance(d, Atom):
+                val = v
+                if val is None and isbool and len(vs) == 1:
+                    val = 1 - vs[0][0]
+                if val is not None:
+                    kn = dict(c2.st.extra.get('known') or {})
+                    kn[d.name] = val
+                    c2.st.extra['known'] = kn
             outs.append(c2)
         return outs
 
@@ -1526,11 +1569,27 @@ class Machine:
         dty = self.local_ty(fr, t['dest']) if t else None
         nm = f.get('rpath') or f.get('path')
         st.events.append(('CALL', nm, tuple(args)))
+        if not any(isinstance(a, Ref) and a.mut for a in args):
+            # pure call: deterministic name so that independent runs agree
+            return Atom('%s(%s)' % (nm.split('::')[-1], ','.join(self.short_name(st, a) for a in args)), dty)
         return Atom(fresh('ret:' + nm.split('::')[-1]), dty)
+
+    def short_name(self, st, v):
+        if isinstance(v, Ref):
+            t = self.read_path(st, v.key, v.path)
+            if isinstance(t, (Atom, Int)):
+                return self.short_name(st, t)
+            if isinstance(t, Ref):
+                return self.short_name(st, t)
+            return '&%s%s' % (v.key[1] if isinstance(v.key, tuple) and len(v.key) > 1 else v.key, ''.join('.%s' % (p[2] if len(p) > 2 and p[2] is not None else p[1]) for p in v.path))
+        if isinstance(v, Atom):
+            return v.name
+        return repr(v)
 
     def opaque_call(self, cfg, f, args, dest, ret_bb, t):
         n = f.get('rpath') or f.get('path')
-        cfg.st.flags.add('opaque:' + n)
+        pure = not any(isinstance(a, Ref) and a.mut for a in args)
+        cfg.st.flags.add(('purecall:' if pure else 'opaque:') + n)
         self.note_opaque(f)
         val = self.opaque_result(cfg, f, args, t)
         return self.finish_call(cfg, dest, ret_bb, val)
